@@ -389,6 +389,7 @@ func (p *dsPlugin) build() *schema.SchemaSchema {
 type dsGen struct {
 	g       *hx.Gen
 	foreign []string // IDs of the objects of the foreign namespace (dsForeignScope)
+	nPlain  int
 }
 
 const dsForeignNS = "ext"
@@ -402,9 +403,38 @@ func dsForeignScope() *dsTy {
 	}}
 }
 
+// dsForeignScopeV1 is an OLDER provider of the same namespace: the same object IDs with other limits,
+// an additional required property and another default. A scope bound to it first and to
+// dsForeignScope afterwards must behave like one bound to dsForeignScope only.
+func dsForeignScopeV1() *dsTy {
+	return &dsTy{T: "scope", Root: "ExtA", Objs: []dsNamedObj{
+		{"ExtA", &dsTy{T: "obj", ID: "ExtA", Props: []dsNamedProp{
+			{"x", &dsProp{Ty: &dsTy{T: "str", Max: hx.IntP(0)}, Required: true}},
+			{"y", &dsProp{Ty: &dsTy{T: "int", Min: hx.IntP(1000)}, Default: hx.MkDefault("1000")}}}}},
+		{"ExtB", &dsTy{T: "obj", ID: "ExtB", Props: []dsNamedProp{
+			{"p", &dsProp{Ty: &dsTy{T: "str"}, Required: true}},
+			{"q", &dsProp{Ty: &dsTy{T: "int"}}}}}},
+	}}
+}
+
+// dsForeignObjs: the objects of the current provider by ID (for building inputs that enter
+// namespaced references).
+func dsForeignObjs() map[string]*dsTy {
+	out := map[string]*dsTy{}
+	for _, o := range dsForeignScope().Objs {
+		out[o.ID] = o.Ty
+	}
+	return out
+}
+
 var dsWords = []string{"Name", "Size of it", "a", "Fruit", "日本", "x y z", "Choice #1", "<svg/>", "ünï", "Z"}
 
 func (d *dsGen) p(x float64) bool { return d.g.R.Float64() < x }
+
+func (d *dsGen) plainID() string {
+	d.nPlain++
+	return fmt.Sprintf("NsPlain%d", d.nPlain)
+}
 
 func (d *dsGen) word() *string { return hx.StrP(dsWords[d.g.R.Intn(len(dsWords))]) }
 
@@ -506,11 +536,22 @@ func (d *dsGen) decorate(t *hx.Ty, hoist *[]dsNamedObj, ns bool) *dsTy {
 			}
 			out.Props = append(out.Props, dsNamedProp{np.Name, dp})
 		}
-		if ns && hoist != nil && len(d.foreign) > 0 && d.p(0.12) && len(out.Props) < 5 {
+		if ns && hoist != nil && len(d.foreign) > 0 && d.p(0.3) && len(out.Props) < 5 {
 			// an optional property referring into the foreign namespace
-			name := "nsref"
-			out.Props = append(out.Props, dsNamedProp{name, &dsProp{Ty: &dsTy{T: "ref", ID: d.foreign[d.g.R.Intn(len(d.foreign))],
-				NS: dsForeignNS, Disp: d.disp(0.3)}}})
+			nsRef := func() *dsTy {
+				return &dsTy{T: "ref", ID: d.foreign[d.g.R.Intn(len(d.foreign))], NS: dsForeignNS, Disp: d.disp(0.3)}
+			}
+			switch d.g.R.Intn(4) {
+			case 0:
+				out.Props = append(out.Props, dsNamedProp{"nsmap", &dsProp{Ty: &dsTy{T: "map", K: &dsTy{T: "str"}, V: nsRef()}}})
+			case 1:
+				out.Props = append(out.Props, dsNamedProp{"nsone", &dsProp{Ty: &dsTy{T: "oneOf", Disc: "_kind",
+					Members: []dsMember{{"ext", nsRef()}, {"plain", &dsTy{T: "obj", ID: d.plainID(), Props: []dsNamedProp{{"v", &dsProp{Ty: &dsTy{T: "str"}}}}}}}}}})
+			case 2:
+				out.Props = append(out.Props, dsNamedProp{"nslist", &dsProp{Ty: &dsTy{T: "list", Item: nsRef()}}})
+			default:
+				out.Props = append(out.Props, dsNamedProp{"nsref", &dsProp{Ty: nsRef()}})
+			}
 		}
 	case "oneOf":
 		for _, m := range t.Members {
@@ -543,7 +584,37 @@ func (d *dsGen) decorate(t *hx.Ty, hoist *[]dsNamedObj, ns bool) *dsTy {
 
 // scope returns a decorated generated scope.
 func (d *dsGen) scope(ns bool) *dsTy {
-	return d.decorate(d.g.Scope(0), nil, ns)
+	t := d.decorate(d.g.Scope(0), nil, ns)
+	if ns {
+		has := false
+		t.walk(func(x *dsTy) {
+			if x.T == "ref" && x.NS != "" {
+				has = true
+			}
+		})
+		if !has {
+			// at least one reference into the foreign namespace, in the root object
+			for _, o := range t.Objs {
+				if o.ID == t.Root {
+					o.Ty.Props = append(o.Ty.Props, dsNsProps()[d.g.R.Intn(4)])
+				}
+			}
+		}
+	}
+	return t
+}
+
+// dsNsProps: a reference into the foreign namespace as a property, a map value, a one-of member and a
+// list item.
+func dsNsProps() []dsNamedProp {
+	ref := func(id string) *dsTy { return &dsTy{T: "ref", ID: id, NS: dsForeignNS} }
+	return []dsNamedProp{
+		{"nsref", &dsProp{Ty: ref("ExtA")}},
+		{"nsmap", &dsProp{Ty: &dsTy{T: "map", K: &dsTy{T: "str"}, V: ref("ExtB")}}},
+		{"nsone", &dsProp{Ty: &dsTy{T: "oneOf", Disc: "_kind", Members: []dsMember{{"ext", ref("ExtA")},
+			{"plain", &dsTy{T: "obj", ID: "NsPlainFixed", Props: []dsNamedProp{{"v", &dsProp{Ty: &dsTy{T: "str"}}}}}}}}}},
+		{"nslist", &dsProp{Ty: &dsTy{T: "list", Item: ref("ExtB")}}},
+	}
 }
 
 func (d *dsGen) plugin() *dsPlugin {
@@ -1148,6 +1219,17 @@ func dsCBOR(x any) (any, error) {
 		return nil, err
 	}
 	return out, nil
+}
+
+// dsSafeValue: the type-directed generator assumes generated schemas (a one-of has members, every
+// reference resolves in its scope); for anything else fall back to a random value.
+func dsSafeValue(g *hx.Gen, ft *hx.Ty) (v *hx.Val) {
+	defer func() {
+		if r := recover(); r != nil {
+			v = g.RandomVal(0)
+		}
+	}()
+	return g.Value(ft, hx.Env{}, 0)
 }
 
 // dsPosZero maps -0.0 to +0.0 everywhere (YAML writes both as 0; the model identifies them).
